@@ -129,7 +129,7 @@ def build_mdl():
 
 # ---------------------------------------------------------------------------------------------- C++
 VARIANTS = {
-    "san":   "-O1 -g -fsanitize=address,undefined -fno-sanitize-recover=all -fno-omit-frame-pointer",
+    "san":   "-O1 -g -fsanitize=address,undefined -fno-sanitize=alignment -fno-sanitize-recover=all -fno-omit-frame-pointer",
     "plain": "-O1 -g",
     "tsan":  "-O1 -g -fsanitize=thread",
 }
